@@ -769,6 +769,20 @@ pub fn file_menu(quick: bool) -> Vec<(String, Vec<u8>)> {
     for s in streams.iter().filter(|s| s.name == "noise-as-fixed-literals" || s.name == "forty-stored-blocks") {
         v.push((format!("zlib 789c({})", s.name), (wr[2].build)(s)));
     }
+    // PNGs whose IDAT run is longer than 1024 bytes in the file while carrying at most 1024 bytes of plaintext: a stored
+    // stream of 1018 noise bytes in one chunk, and a 500-byte text in 8-byte chunks
+    {
+        use crate::model::{serialise, Block, Stream};
+        let noise = text_family(4, 1018);
+        let sd = serialise(&Stream { blocks: vec![Block::Stored { data: noise.clone(), pad: 0 }], final_pad: 0 });
+        v.push(("png stored 1018 bytes in one IDAT chunk".into(), crate::wrap::png_wrap(&crate::wrap::zlib_wrap([0x78, 0x01], &sd, &noise), &[], true)));
+        let t = text_family(1, 500);
+        if let Some(sd) = crate::comp::zlib_deflate_raw(&t, 6, 0, 15, 8) {
+            let z = crate::wrap::zlib_wrap([0x78, 0x9c], &sd, &t);
+            let splits: Vec<usize> = (1..z.len() / 8 + 1).map(|k| k * 8).collect();
+            v.push(("png 500 bytes of text in 8-byte IDAT chunks".into(), crate::wrap::png_wrap(&z, &splits, true)));
+        }
+    }
     // multi-stream file
     let mut m = b"head".to_vec();
     m.extend_from_slice(&(wr[2].build)(&streams[0]));
@@ -909,7 +923,8 @@ pub fn run_c11(ctx: &Ctx, st: &mut Local) {
             }
             // "not a zstd frame" is defined by zstd's own decoder (through the reference build's
             // copy of the zstd crate: decompress of the reference with a large capacity fails at the zstd layer)
-            let is_frame = zstd_accepts(inp);
+            // (libzstd decodes the empty input as "zero frames"; a byte string without a magic number is not a frame)
+            let is_frame = inp.len() >= 4 && zstd_accepts(inp);
             ctx.begin(name2, i, 20_000);
             let r = caught(|| s.decompress_zstd(inp, 1 << 20));
             ctx.end();
